@@ -178,6 +178,14 @@ def apply_kind(kind, args, kwargs):
         return glom.SKIP if as_int(v) is not None and int(v) % 2 != 0 else v
     if kind == 'stop_if_neg':
         return glom.STOP if as_int(v) is not None and int(v) < 0 else v
+    if kind == 'stop_if_truthy':
+        return glom.STOP if v else v
+    if kind == 'stop_if_falsy':
+        return v if v else glom.STOP
+    if kind == 'skip_if_truthy':
+        return glom.SKIP if v else v
+    if kind == 'skip_if_falsy':
+        return v if v else glom.SKIP
     if kind == 'wrap':
         return [v]
     if kind == 'truthy':
